@@ -60,7 +60,7 @@ def inputs(ctx):
         if nt == 0:
             nodes.append({"t": "T", "s": [120]})
         ins.append({"id": "r%d" % k, "k": "spans", "nodes": nodes, "route": rng.choice(ROUTES)})
-    for d in corpus.docs():
+    for d in corpus.readable_docs():
         ins.append({"id": "d-" + d, "k": "balanced", "doc": d})
     # every caption the SCC reader returns on random pop-on programs with italic preambles
     # and mid-row codes (the italics normalisation passes)
